@@ -352,6 +352,7 @@ LOOP:
 				if ready {
 					// Danger.  ToDo: Be more careful
 					c.Timeline = c.Timeline[1:]
+					verifJob("Cron.pop", job, now)
 					go func(job *CronJob) {
 						c.run(ctx, job)
 					}(job)
@@ -435,6 +436,7 @@ func (c *Cron) insert(ctx *core.Context, job *CronJob) int {
 		copy(c.Timeline[at+1:], c.Timeline[at:])
 		c.Timeline[at] = job
 	}
+	verifJob("Cron.insert", job, time.Now())
 	c.resetTimer()
 	return at
 }
@@ -556,5 +558,6 @@ func (c *Cron) rem(ctx *core.Context, id string) (bool, error) {
 	if !found {
 		// log.Printf("Cron.Rem %p %s job %s not found", c, c.Name, id)
 	}
+	verifRem("Cron.rem", id, found)
 	return found, nil
 }
